@@ -158,3 +158,32 @@ def borrow(repo: Repo, rep: Report, from_prop: str, from_rule: str, new_rule: st
             else:
                 rep.unknown(new_rule, o.construct, o.detail, o.loc)
     rep.floor(new_rule, f"obligations taken from {from_rule}", n, floor)
+
+
+def slot_rewrites_are_self_referential(repo: Repo, rep: Report, rule: str, only_class: str | None = None) -> None:
+    """In the optimizer's reference-mapping helpers (`op.F = update(op.F)` per class branch) the new value of a slot may read only that
+    slot's own old value: building one slot from another (a copy/paste slip) silently overwrites an operand."""
+    from .util import canon
+
+    mod = repo.module("ir.optimizer")
+    n = 0
+    for f in mod.funcs.values():
+        if "update" not in f.params and "replacements" not in f.params:
+            continue
+        c = canon(f)
+        for st in walk_local(f.node):
+            if not (isinstance(st, ast.Assign) and isinstance(st.targets[0], ast.Attribute) and isinstance(st.targets[0].value, ast.Name)):
+                continue
+            recv, fld = st.targets[0].value.id, st.targets[0].attr
+            if recv not in f.params and not any(isinstance(x, ast.For) and any(isinstance(t, ast.Name) and t.id == recv for t in ast.walk(x.target)) for x in walk_local(f.node)):
+                continue
+            if only_class is not None:
+                from .util import cguards
+                if not any(pol and f"isinstance({f.params[0]}, {only_class})" in g for g, pol in cguards(f, st)):
+                    continue
+            n += 1
+            cv = c.node(st.value)
+            others = sorted({x.attr for x in ast.walk(cv) if isinstance(x, ast.Attribute) and isinstance(x.value, ast.Name) and x.value.id == recv and x.attr != fld})
+            rep.check(not others, rule, f"{f.short}: new value of .{fld} is built from .{fld} only",
+                      f"reads only .{fld}" if not others else f"also reads {['.' + o for o in others]}: .{fld} is overwritten with data of another slot", f.loc(st))
+    rep.floor(rule, "slot rewrites in the reference-mapping helpers", n, 3)
